@@ -49,6 +49,7 @@ def parse(model, text: str, _keep_parseinfo=None, **settings):
     """-> ('ok', normalised value) | ('fail', exception class name, pos)
           | ('exc', class name, message)   for non-TatSu exceptions"""
     from tatsu.exceptions import FailedParse, ParseException
+    settings = with_start(model, settings)
     try:
         with contextlib.redirect_stderr(io.StringIO()):
             v = model.parse(text, **settings)
@@ -61,3 +62,14 @@ def parse(model, text: str, _keep_parseinfo=None, **settings):
         return ('exc', 'RecursionError', '')
     except Exception as e:  # noqa
         return ('exc', type(e).__name__, str(e)[:200])
+
+
+def with_start(model, settings):
+    """Harness policy: a grammar that has a rule called `start` is parsed from it even when an
+    includable/base rule had to be defined before it (explicit start=, one of the documented entry points)."""
+    try:
+        if 'start' not in settings and 'start' in model.rulemap and model.rules[0].name != 'start':
+            return dict(settings, start='start')
+    except Exception:  # noqa
+        pass
+    return settings
